@@ -77,6 +77,7 @@ class Hooks:
         self.pre_execute = None  # fn(conn, sql, params) called BEFORE each execute
         self.pre_commit = None  # fn(conn) called BEFORE the real commit
         self.pre_rollback = None
+        self.locked_retry = None  # E3: fn(conn, sql) -> True to retry after being rescheduled
         self.commits = 0
         self.statements = 0
 
@@ -90,13 +91,31 @@ class VConn(sqlite3.Connection):
         h.statements += 1
         if h.pre_execute is not None:
             h.pre_execute(self, sql, a[0] if a else None)
-        return super().execute(sql, *a)
+        if h.locked_retry is None:
+            return super().execute(sql, *a)
+        if sql.lstrip().upper().startswith("PRAGMA BUSY_TIMEOUT"):
+            sql = "PRAGMA busy_timeout = 0"  # E3 models lock waits as blocking (DESIGN.md 2.2)
+        while True:
+            try:
+                return super().execute(sql, *a)
+            except sqlite3.OperationalError as e:
+                if "locked" not in str(e) or not h.locked_retry(self, sql):
+                    raise
 
     def commit(self):  # type: ignore[override]
         h = HOOKS
         if h.pre_commit is not None:
             h.pre_commit(self)
-        super().commit()
+        if h.locked_retry is None:
+            super().commit()
+        else:
+            while True:
+                try:
+                    super().commit()
+                    break
+                except sqlite3.OperationalError as e:
+                    if "locked" not in str(e) or not h.locked_retry(self, "COMMIT"):
+                        raise
         h.commits += 1
         if h.on_commit is not None:
             h.on_commit(self)
